@@ -147,11 +147,23 @@ func TestVerif_C05Pipe(t *testing.T) {
 				if !throttle && continuous {
 					cc.MaxSecs = 10 // so that the unthrottled run leaves finished files to count
 				}
+				// the continuous recorder runs next to the throttled motion recorder in a third of the cases
+				cc.Constant = idx%3 == 1
 				r, err := prepareConn(scratch, &cc, cam)
 				if err != nil {
 					return 0, nil, 0, "prepareConn: " + err.Error()
 				}
 				defer r.cleanup()
+				if idx%4 == 3 {
+					// an earlier, short connection from a camera with another frame rate in the same
+					// process: the throttle's frame-denominated numbers must be this connection's
+					other := leptonCamera("lepton3", 16, 12, []int{1, 27}[int(idx/4)%2])
+					pf := &pFrame{Seq: 60000, TimeOnMS: timeOnFor(60000), Pix: newPix(other.ResX, other.ResY, 3000), FPATempCK: 30000, FPAFFCCK: 30000}
+					r.serve(pacedFeed(other, []*pFrame{pf}, 0), nil)
+					if r.Err != io.EOF {
+						return 0, nil, 0, fmt.Sprintf("earlier connection: handleConn returned %v", r.Err)
+					}
+				}
 				r.serve(pacedFeed(cam, frames, pace), nil)
 				if r.Err != io.EOF {
 					return 0, nil, 0, fmt.Sprintf("handleConn returned %v", r.Err)
@@ -220,6 +232,12 @@ func TestVerif_C05Pipe(t *testing.T) {
 				c.Count("unthrottled_runs_exceeding_bound", 1)
 			}
 			c.Count("pipeline_runs", 1)
+			if idx%3 == 1 {
+				c.Count("runs_with_continuous_recorder", 1)
+			}
+			if idx%4 == 3 {
+				c.Count("runs_after_a_camera_with_another_fps", 1)
+			}
 			c.Count("frames_recorded_throttled", int64(got))
 			c.Count("frames_recorded_unthrottled", int64(off))
 			c.Count("throttled_files", int64(len(files)))
